@@ -7,6 +7,9 @@ use signalo_filters::wavelet::Decomposition;
 pub enum Val {
     Q(Q),
     NaN,
+    /// a value that is unequal even to itself and still ordered against every other value (`3~` on the protocol): what
+    /// `(3.0, NaN)` is among tuples compared lexicographically
+    Odd(Q),
     /// IEEE negative zero (`-0` on the protocol): equal to zero under `==`, a different value bit for bit
     NegZero,
     /// bit pattern of an f64 (`x` + 16 hex digits on the protocol)
@@ -21,6 +24,12 @@ pub fn parse_val(s: &str) -> Val {
     }
     if s == "-0" {
         return Val::NegZero;
+    }
+    if let Some(core) = s.strip_suffix('~') {
+        return match parse_val(core) {
+            Val::Q(q) => Val::Odd(q),
+            _ => panic!("harness: bad odd value"),
+        };
     }
     if s.len() == 17 && s.starts_with('x') {
         return Val::F64(u64::from_str_radix(&s[1..], 16).expect("bad f64 bits"));
@@ -67,6 +76,7 @@ impl FromVal for f64 {
             Val::NegZero => -0.0,
             Val::F64(b) => f64::from_bits(b),
             Val::F32(_) => panic!("harness: f32 bits fed to an f64 instance"),
+            Val::Odd(_) => panic!("harness: a composite-like value fed to an f64 instance"),
         }
     }
 }
@@ -157,7 +167,42 @@ macro_rules! from_args_single {
         }
     )*};
 }
-from_args_single!(Q, f64, f32, i64, Slope, Fz, u8, i8);
+from_args_single!(Q, f64, f32, i64, Slope, Fz, u8, i8, Sn);
+
+/// a composite-like sample: ordered by `v`; when `odd`, unequal to everything including itself and incomparable with
+/// values of the same `v` — the behaviour of `(v, f64::NAN)` under the derived lexicographic `PartialOrd`
+#[derive(Clone, Copy, Debug)]
+pub struct Sn {
+    pub v: Q,
+    pub odd: bool,
+}
+impl PartialEq for Sn {
+    fn eq(&self, o: &Sn) -> bool {
+        !self.odd && !o.odd && self.v == o.v
+    }
+}
+impl PartialOrd for Sn {
+    fn partial_cmp(&self, o: &Sn) -> Option<std::cmp::Ordering> {
+        match self.v.partial_cmp(&o.v) {
+            Some(std::cmp::Ordering::Equal) if self.odd || o.odd => None,
+            r => r,
+        }
+    }
+}
+impl FromVal for Sn {
+    fn from_val(v: Val) -> Sn {
+        match v {
+            Val::Q(q) => Sn { v: q, odd: false },
+            Val::Odd(q) => Sn { v: q, odd: true },
+            _ => panic!("harness: bad value for the composite sample type"),
+        }
+    }
+}
+impl Render for Sn {
+    fn r(&self) -> String {
+        if self.odd { format!("{}~", self.v) } else { self.v.r() }
+    }
+}
 
 /// an `f64` sample that keeps the sign of a zero on the protocol (`-0`): for code that merely stores, selects or hands on
 /// samples (median, the cache wrapper), `+0.0` and `-0.0` are two different values although `==` calls them equal
